@@ -267,7 +267,6 @@ func TestC06_ConcurrentDiscard(t *testing.T) {
 	})
 }
 
-
 // TestC06_CallDuringStop: under the two discard policies a log call returns without waiting for the
 // appender - also a call that arrives while another goroutine is inside Stop, which waits for the
 // appender to take what is buffered. The appender stays stalled until the call has returned (the
@@ -361,7 +360,7 @@ func TestC06_RollingAsyncPolicy(t *testing.T) {
 	vk.Rule(rule)
 	base := vk.Scratch("c06r")
 	rapid.Check(t, func(t *rapid.T) {
-		policy := rapid.SampledFrom([]string{"Discard", "DiscardOldest", "default"}).Draw(t, "policy")
+		policy := rapid.SampledFrom([]string{"Discard", "DiscardOldest", "default", "Block"}).Draw(t, "policy")
 		n := rapid.IntRange(150, 600).Draw(t, "events")
 		separate := rapid.Bool().Draw(t, "separate")
 		log.Destroy()
@@ -375,6 +374,18 @@ func TestC06_RollingAsyncPolicy(t *testing.T) {
 		}
 		if err := log.Refresh(m); err != nil {
 			t.Fatalf("VERIF-INCONCLUSIVE C06: %v", err)
+		}
+		if policy == "Block" {
+			// an explicitly configured Block is Block: the calls wait for the stalled worker instead
+			// of dropping anything, so the harness lets the worker go a little later
+			go func() {
+				select {
+				case <-layoutEntered:
+				case <-time.After(2 * time.Second):
+				}
+				time.Sleep(time.Duration(50+n%200) * time.Millisecond)
+				close(layoutGate)
+			}()
 		}
 		done, p := vk.Within(20*time.Second, func() {
 			for i := 0; i < n; i++ {
@@ -390,19 +401,33 @@ func TestC06_RollingAsyncPolicy(t *testing.T) {
 		vk.Class("rolling-async-policy:" + policy)
 		vk.NonTrivial(fmt.Sprintf("rolling-async/%s/%d/%v", policy, n, separate))
 		if p != nil {
-			close(layoutGate)
+			if policy != "Block" {
+				close(layoutGate)
+			}
 			t.Fatalf("VERIF-VIOLATION C06: log call panicked: %v", p)
 		}
 		if !done {
+			if policy == "Block" {
+				vk.HardFail("c06-hang", map[string]any{"policy": policy, "events": n},
+					"C06: rolling-file logger (async, bufferFullPolicy=Block): %d log calls did not return within 20 s although the worker was released", n)
+			}
 			vk.HardFail("c06-hang", map[string]any{"policy": policy, "events": n},
 				"C06: rolling-file logger (async, bufferFullPolicy=%s): %d log calls did not return within 20 s while the worker was stalled - the call waited for the appender although a discard policy is configured", policy, n)
 		}
-		close(layoutGate)
+		if policy != "Block" {
+			close(layoutGate)
+		}
 		if d, _ := vk.Within(30*time.Second, log.Destroy); !d {
 			vk.HardFail("c06-hang", map[string]any{"policy": policy}, "C06: Destroy did not return after the gate opened")
 		}
 		// per-producer order: whatever survived the policy appears in submission order in each file
 		ents, _ := os.ReadDir(base)
+		seen := map[int64]bool{} // a raw write reaches both files of a separate=true logger: count distinct items
+		defer func() {
+			for _, e := range ents {
+				_ = os.Remove(filepath.Join(base, e.Name()))
+			}
+		}()
 		for _, e := range ents {
 			b, _ := os.ReadFile(filepath.Join(base, e.Name()))
 			last := int64(-1)
@@ -415,8 +440,11 @@ func TestC06_RollingAsyncPolicy(t *testing.T) {
 					t.Fatalf("VERIF-VIOLATION C06: rolling-file logger (async, %s): in %s item id=%d comes after id=%d although one goroutine submitted them in order (events and raw writes alike)", policy, e.Name(), id, last)
 				}
 				last = id
+				seen[id] = true
 			}
-			_ = os.Remove(filepath.Join(base, e.Name()))
+		}
+		if total := len(seen); policy == "Block" && total != n {
+			t.Fatalf("VERIF-VIOLATION C06: rolling-file logger (async, bufferFullPolicy=Block, buffer 100): %d items were submitted while the worker was stalled, the files hold %d of them after Destroy - under Block nothing is dropped, the call waits for space", n, total)
 		}
 	})
 }
